@@ -1069,3 +1069,38 @@ def norm_cmp(e, pol=True):
     elif op == 'Ge':
         op, a, b = 'Le', b, a
     return (op, a, b)
+
+
+def control_conditions(fn, blk, prov=None):
+    """Conditions of the bool switches the execution of `blk` depends on within one loop iteration:
+    switches S that reach blk without taking a back edge and that blk does not post-dominate.
+    Yields (switch_bb, cond_expr). Over-approximates control dependence (includes `a || b` chains)."""
+    prov = prov or Prov(fn)
+    back = set()
+    for t in fn.reachable:
+        for h in fn.succ[t]:
+            if fn.dominates(h, t):
+                back.add((t, h))
+    # reverse reachability to blk without back edges
+    can = {blk}
+    stack = [blk]
+    while stack:
+        x = stack.pop()
+        for p in fn.pred[x]:
+            if (p, x) in back or p in can:
+                continue
+            can.add(p)
+            stack.append(p)
+    for s in can:
+        if s == blk:
+            continue
+        e = switch_edges(fn, s)
+        if e is None or e[0] == e[1]:
+            continue
+        # blk must not be reached on every forward path from s: one of the edges avoids it
+        reach_f = [tgt in can or tgt == blk for tgt in e]
+        if all(reach_f):
+            # both edges can reach blk; still a dependence unless blk post-dominates s
+            if blk in fn.pdom.get(s, ()):
+                continue
+        yield s, prov.operand(fn.blocks[s]['term']['discr'], 0, '%d:T' % s)
